@@ -82,6 +82,14 @@ class World:
     def data(self) -> EvaluatableData:
         return EvaluatableData(body=self, edifact_format=FORMAT, edifact_format_version=VERSION)
 
+    @classmethod
+    def from_cer(cls, cer) -> "World":
+        """a World that answers like the given ContentEvaluationResult; its id spells the assignment out"""
+        rc = {k: REF[v] for k, v in cer.requirement_constraints.items()}
+        fc = {k: v.format_constraint_fulfilled for k, v in cer.format_constraints.items()}
+        wid = ",".join(f"{k}={v}" for k, v in sorted(rc.items())) + "|" + ",".join(f"{k}={'T' if v else 'f'}" for k, v in sorted(fc.items()))
+        return cls(wid, rc=rc, fc=fc, hints=dict(cer.hints), pkg=dict(cer.packages or {}))
+
 
 _data_var: ContextVar[Optional[EvaluatableData]] = ContextVar("vf_evaluatable_data", default=None)
 
